@@ -3041,7 +3041,9 @@ def decode_ssh_public_key(data: bytes) -> SSHKey:
         else:
             raise KeyImportError('Unknown key algorithm: ' +
                                  alg.decode('ascii', errors='replace'))
-    except PacketDecodeError:
+    except KeyImportError:
+        raise
+    except (PacketDecodeError, ValueError, OverflowError):
         raise KeyImportError('Invalid public key') from None
 
 
@@ -3194,7 +3196,13 @@ def import_private_key(
         except UnicodeEncodeError:
             raise KeyImportError('Invalid encoding for key') from None
 
-    key, _ = _decode_private(data, passphrase, unsafe_skip_rsa_key_validation)
+    try:
+        key, _ = _decode_private(data, passphrase,
+                                 unsafe_skip_rsa_key_validation)
+    except (KeyImportError, KeyEncryptionError):
+        raise
+    except (ValueError, OverflowError):
+        raise KeyImportError('Invalid private key') from None
 
     if key:
         return key
@@ -3222,7 +3230,12 @@ def import_public_key(data: BytesOrStr) -> SSHKey:
         except UnicodeEncodeError:
             raise KeyImportError('Invalid encoding for key') from None
 
-    key, _ = _decode_public(data)
+    try:
+        key, _ = _decode_public(data)
+    except KeyImportError:
+        raise
+    except (ValueError, OverflowError):
+        raise KeyImportError('Invalid public key') from None
 
     if key:
         return key
